@@ -38,7 +38,7 @@ Lemma merge_fails_nonvacuous :
 Proof. vm_compute. split; reflexivity. Qed.
 
 (* ---------- non-vacuity instances ---------- *)
-(* a 12-step history inside refine_scope with existing partners, two graphs, links, updates, listing *)
+(* a 12-step history inside refine_scope0 with existing partners, two graphs, links, updates, listing *)
 Definition w_agree : list op :=
   [OAddNode 10 20 30 None; OAddNode 10 21 31 (Some [(50, PV 60)]); OAddLink 10 20 40 21 None;
    OAddNode 11 20 30 None; OAddNode 10 20 31 None; OUpdNode 10 20 50 (PV 61); OUnsetNode 10 20 k_name;
@@ -46,7 +46,7 @@ Definition w_agree : list op :=
    OGetLink 10 20 21; ODelGraph 11; OGraphExists 11; OMatching 10 11].
 
 Lemma agree_nonvacuous :
-  forallb refine_scope w_agree = true /\
+  forallb refine_scope0 w_agree = true /\
   sresults init_store w_agree =
     [Ok RUnit; Ok RUnit; Ok RUnit; Ok RUnit; Err EQuery; Ok RUnit; Err EQuery; Ok RUnit; Ok RUnit;
      Ok (RVals [PV 20]); Ok (RVals [PV 20; PV 21]); Ok RUnit; Err EQuery; Ok RUnit; Ok (RBool false); Ok (RVals [])] /\
